@@ -105,7 +105,7 @@ def replayMoves : List String → Game → RepTable → Res (Game × RepTable)
     | none => .panic                       -- panic!("Illegal move")
     | some m => match makeSearchMove g m rep with
       | some (g', rep') => if rep'.overflow then .panic else replayMoves rest g' rep'
-      | none => replayMoves rest g rep     -- cannot happen for a move of `legal_values`
+      | none => replayMoves rest (makePre g m) rep     -- Rust ignores the `false` and goes on with the half-made position (a move of `legal_values` never gets here: `Props/C01`)
 
 /-- `parse_position(args, rep_table)` (the caller has cleared the table) -/
 def parsePosition (args : String) (rep : RepTable) : Res (Game × RepTable) :=
